@@ -2,6 +2,9 @@
 open Model
 open Glue
 
+(* a kind this module does not know: modelrun then asks Dispatch3 (the extension models) *)
+exception Unknown_kind of string
+
 (* ---------- C13: AST programs ---------- *)
 let oid_of_int i = if i = 0 then None else Some (n_of_int i)
 let int_of_oid = function None -> 0 | Some x -> int_of_n x
@@ -617,4 +620,4 @@ let eval (fn : string) (args : string list) : string =
     (match new_block_reader b segs with
      | Ok r -> run_reader_prog block_ops r (List.length b) script
      | Panic -> "PANIC" | OutOfFuel -> "FUEL")
-  | _ -> failwith ("unknown case kind " ^ fn)
+  | _ -> raise (Unknown_kind fn)
